@@ -344,7 +344,7 @@ func structural(f string, raw []byte, p *dec.Package, signed bool, hasScripts bo
 
 func c04(run *ev.Run, tier string) {
 	n := ncases(100, 1500, tier)
-	run.Rule = "cases = C01-style generated configurations, each built unsigned and (deb, rpm, apk) signed with the repository's unprotected test keys, all deb/rpm compressions round-robin; every output is parsed end to end by the harness readers (raw tar walker + archive/tar reader, ar, gzip member splitter, rpm lead/header/cpio, mtree) and every structural rule of the statement is asserted; deb output additionally goes through dpkg-deb -I/-c, xz/lzma payloads through the xz CLI. Further workloads: declared directories with non-canonical interiors plus an entry below, tree names with backslashes, destinations 31..70 directories deep, good builds after failed ones (afterFailedBuilds), the CLI over a larger existing file, bytes accepted by a destination that refused a write. Package dates before 1970 / from 2242 on (no deb or ipk tar member may need a pax header), all scripts blank. non-trivial = payload with >=1 directory, >=1 regular file and >=2 nesting levels; distinct = feature set x signed"
+	run.Rule = "cases = C01-style generated configurations, each built unsigned and (deb, rpm, apk) signed with the repository's unprotected test keys, all deb/rpm compressions round-robin; every output is parsed end to end by the harness readers (raw tar walker + archive/tar reader, ar, gzip member splitter, rpm lead/header/cpio, mtree) and every structural rule of the statement is asserted; deb output additionally goes through dpkg-deb -I/-c, xz/lzma payloads through the xz CLI. Further workloads: declared directories with non-canonical interiors plus an entry below, tree names with backslashes, destinations 31..70 directories deep, good builds after failed ones (afterFailedBuilds), the CLI over a larger existing file, bytes accepted by a destination that refused a write. Package dates before 1970 / from 2242 on (no deb or ipk tar member may need a pax header), all scripts blank. non-trivial = payload with >=1 directory, >=1 regular file and >=2 nesting levels; distinct = feature set x signed; changelog files without entries, owner / group names outside ASCII or beyond 32 bytes, descriptions with blank or white-space-only inner lines"
 	var archives, rules, dpkgRuns, xzRuns, tarRuns, gzipRuns int64
 	haveTar := have("tar")
 	var mu sync.Mutex
